@@ -6,7 +6,7 @@ import lib
 DEFAULT_SWITCHES = {
     "CheckOrder": '"flag-table"', "ClearLoserRetries": "TRUE", "InsertOrder": '"value-key"', "SnapshotRecheck": "TRUE",
     "CopyLocksBuckets": "TRUE", "PublishBeforeFlagClear": "TRUE", "SizeTarget": '"modified"', "CopyRecounts": "TRUE",
-    "FnBeforeRetry": "FALSE", "BroadcastOnResizeEnd": "TRUE", "UnlockOnNewerTable": "TRUE", "ZeroOnAbsentDelete": "TRUE", "RangeSnapshotsTable": "TRUE",
+    "FnBeforeRetry": "FALSE", "BroadcastOnResizeEnd": "TRUE", "UnlockOnNewerTable": "TRUE", "ZeroOnAbsentDelete": "TRUE", "RangeSnapshotsTable": "TRUE", "LoadOnMissWaits": "FALSE",
 }
 
 # alternative value of each switch and the families expected to refute it (vacuity guard + witness generator)
@@ -139,6 +139,32 @@ def run_family(name, variant, switches=None, timeout=1800, workers=None, livenes
         r["violated"] = "deadlock"
     elif "Temporal properties were violated" in out:
         r["violated"] = "liveness"
+    elif not r["ok"]:
+        r["violated"] = "error"
+    return r
+
+
+def run_freeze(name, variant, switches=None, reader="t3", bound=40, timeout=1800):
+    """C16 at the specification level: freeze all threads but the reader at every reachable state (CLHT_Freeze)."""
+    import shutil
+    d = lib.mktemp("verif-freeze-")
+    for m in ("CLHT", "MapSem", "CLHT_Freeze"):
+        shutil.copy(os.path.join(lib.SPECS, m + ".tla"), d)
+    write_model(d, name, variant, switches)
+    cfg = open(os.path.join(d, "MC_CLHT.cfg")).read()
+    cfg = cfg.replace("SPECIFICATION Spec", "SPECIFICATION FSpec")
+    cfg = "\n".join(l for l in cfg.splitlines() if not l.startswith("INVARIANT")) + "\n"
+    cfg = cfg.replace("CONSTANTS\n", "CONSTANTS\n Reader = \"%s\"\n Bound = %d\n" % (reader, bound))
+    cfg += "INVARIANT ReaderBounded\n"
+    open(os.path.join(d, "CLHT_Freeze.cfg"), "w").write(cfg)
+    r = lib.run_tlc("CLHT_Freeze", workers=lib.NCPU, timeout=timeout, workdir=d, staged=True)
+    out = r["out"]
+    r["violated"] = None
+    m = re.search(r"Invariant (\w+) is violated", out)
+    if m:
+        r["violated"] = m.group(1)
+    elif "Deadlock reached" in out:
+        r["violated"] = "deadlock"
     elif not r["ok"]:
         r["violated"] = "error"
     return r
